@@ -257,6 +257,13 @@ func (c *Check) JudgeAll(cases []*Case) []*Result {
 					break
 				}
 			}
+			if !ok && v.Symptom == "timeout" {
+				// The cap is the only wall-clock oracle; a run that reaches it once on a loaded machine and
+				// terminates normally when repeated alone is not a violation and not a harness error.
+				n, _ := c.Coverage["timeouts_not_reproduced_alone"].(int)
+				c.Coverage["timeouts_not_reproduced_alone"] = n + 1
+				continue
+			}
 			if !ok {
 				c.Internalf("candidate violation %s [%s] did not reproduce when run alone: %s", v.CaseID, v.Symptom, v.Detail)
 				continue
